@@ -65,11 +65,12 @@ def Csc.transpose (A : Csc K) : Csc K := csrToCsc ⟨A.nCols, A.nRows, A.cols⟩
 
 /-! ### sort, move_diag, remove_duplicates -/
 
-/-- stable insertion sort by key (the C++ uses `std::sort`, whose order among equal keys is
-    unspecified; comparisons with the implementation canonicalise ties) -/
+/-- stable insertion sort by key: `x` is inserted in front of the first element whose key is not
+    smaller, so elements with equal keys keep their original order (the C++ uses `std::sort`, whose
+    order among equal keys is unspecified; comparisons with the implementation canonicalise ties) -/
 def insertBy {α : Type} (key : α → Nat) (x : α) : List α → List α
   | [] => [x]
-  | y :: ys => if key x < key y then x :: y :: ys else y :: insertBy key x ys
+  | y :: ys => if key x ≤ key y then x :: y :: ys else y :: insertBy key x ys
 def sortBy {α : Type} (key : α → Nat) (l : List α) : List α := l.foldr (insertBy key) []
 
 def Csr.sort (A : Csr K) : Csr K := { A with rows := A.rows.map (sortBy (·.1)) }
